@@ -78,7 +78,7 @@ def judge(res, cfg, hist, i, op, rec, model, case, queries):
         if rec["wcalls"]:
             res.violation(
                 {
-                    "signature": f"C20:{sig_op[0]}:{sig_op[1] if len(sig_op) > 1 and sig_op[1] in ('p', 'g', 'g2') else ''}:{cfg.watcher}{':async' if cfg.is_async else ''}:raised",
+                    "signature": f"C20:{sig_op[0]}:{sig_op[1] if len(sig_op) > 1 and sig_op[1] in ('p', 'g', 'g2') else ''}:{cfg.watcher}{':async' if cfg.is_async else ''}{':async-update' if getattr(cfg, 'async_update', False) else ''}:raised",
                     "what": f"{cfg.shape}, {cfg.watcher} watcher: {list(sig_op)} raised {rec['ret']} and yet notified {rec['wcalls']}",
                     "case": case,
                     "expected": [],
@@ -109,7 +109,7 @@ def judge(res, cfg, hist, i, op, rec, model, case, queries):
         if late_mem or late_store:
             res.violation(
                 {
-                    "signature": f"C20:{sig_op[0]}:{sig_op[1] if len(sig_op) > 1 and sig_op[1] in ('p', 'g', 'g2') else ''}:{cfg.watcher}{':async' if cfg.is_async else ''}:order",
+                    "signature": f"C20:{sig_op[0]}:{sig_op[1] if len(sig_op) > 1 and sig_op[1] in ('p', 'g', 'g2') else ''}:{cfg.watcher}{':async' if cfg.is_async else ''}{':async-update' if getattr(cfg, 'async_update', False) else ''}:order",
                     "what": f"{cfg.shape}, {cfg.watcher} watcher: {list(sig_op)} notified {rec['wcalls']} while {'memory' if late_mem else 'the adapter'} did not yet hold the change: at notification {snap['pol'] if late_mem else snap['store']}, on return {rec['pol'] if late_mem else rec['store']}",
                     "case": case,
                     "expected": "notified after the in-memory and adapter changes",
@@ -122,7 +122,7 @@ def judge(res, cfg, hist, i, op, rec, model, case, queries):
     if rec["wcalls"] != exp:
         res.violation(
             {
-                "signature": f"C20:{sig_op[0]}:{sig_op[1] if len(sig_op) > 1 and sig_op[1] in ('p', 'g', 'g2') else ''}:{cfg.watcher}{':async' if cfg.is_async else ''}",
+                "signature": f"C20:{sig_op[0]}:{sig_op[1] if len(sig_op) > 1 and sig_op[1] in ('p', 'g', 'g2') else ''}:{cfg.watcher}{':async' if cfg.is_async else ''}{':async-update' if getattr(cfg, 'async_update', False) else ''}",
                 "what": f"{cfg.shape}, {cfg.watcher} watcher: {list(sig_op)} returned {rec['ret']} and notified {rec['wcalls']}; expected {exp}",
                 "case": case,
                 "expected": exp,
@@ -165,6 +165,13 @@ def gen(ctx, deep):
                     scfg.sync_callbacks = True
                     for a in ops:
                         jobs.append((scfg, [a]))
+                if is_async:
+                    # ... and fully asynchronous watchers: the generic update() is a coroutine function like the callbacks
+                    ucfg = ec.Config(shape, adapter=True, watcher=kind, initial=init, is_async=True)
+                    ucfg.async_update = True
+                    for a in ops:
+                        jobs.append((ucfg, [a]))
+                        jobs.append((ucfg, [("autonotify", False), a]))
                 if not is_async or deep:
                     for a in ops:
                         for b in ops:
@@ -319,6 +326,7 @@ def replay(obj):
     c = case["config"]
     cfg = ec.Config(c["shape"], adapter=c["adapter"], watcher=c["watcher"], initial=c["initial"], is_async=c.get("async", False), late=c.get("late", False))
     cfg.sync_callbacks = c.get("sync_callbacks", False)
+    cfg.async_update = c.get("async_update", False)
     hist = [tuple(o) for o in case["history"]]
     r = common.Result()
     out = ec.run_history(cfg, hist, [], fresh_oracle=False)
